@@ -1,4 +1,4 @@
-from types import FrameType
+from types import FrameType, FunctionType
 from typing import (
     TYPE_CHECKING,
     Any,
@@ -34,10 +34,16 @@ def _copy_failure(failure: BaseException) -> BaseException:
     arguments, fresh traceback) for one process or for step() to raise."""
     cls = type(failure)
     try:
-        exc = cls(*failure.args)
+        if isinstance(cls.__init__, FunctionType):
+            # a constructor written in Python may have a signature of its
+            # own, or format its message: calling it again with the args of
+            # the instance fails or changes them. Copy the instance instead.
+            exc = cls.__new__(cls, *failure.args)
+            exc.args = failure.args
+            exc.__dict__.update(failure.__dict__)
+        else:
+            exc = cls(*failure.args)
     except Exception:
-        # a class whose constructor has a signature of its own cannot be
-        # rebuilt from its args: copy the instance instead
         exc = cls.__new__(cls)
         exc.args = failure.args
         exc.__dict__.update(failure.__dict__)
